@@ -121,7 +121,13 @@ def run(ctx, rep):
         off_lv = (("M", p1), (("f", [i for i, f in enumerate(itr["variants"][0]["fields"]) if f["name"] == "offset"][0], "offset"),))
         for t, st, calls in an.paths() or []:
             if t.op == "agg" and t.args[3] == "None" and ("var", R, "Err") in st.facts:
-                continue    # the parse of this entry failed: `.ok()` (or the equivalent match) ends the iteration
+                # the parse of this entry failed: `.ok()` (or the equivalent match) ends the iteration; next() itself must leave the
+                # cursor where the failed parse left it (a rewind would start a second pass)
+                offv = an.read(st, off_lv)
+                left = offv is ioff or (offv.op == "fresh" and str(offv.args[1]).endswith(":err"))
+                rep.require(left, "iterator", "next:after-failure", w, "cursor untouched by next() after a failed parse",
+                            "ParsingIterator::next sets the offset to %s after a failed parse: iteration does not stay finished" % pp(offv)[:120])
+                continue
             if t.op == "agg" and t.args[3] == "None":
                 ok = an.truth(st.facts, T.bin("Eq", T.length(idata), T.const("usize", 0), "usize")) is True and an.read(st, off_lv) is ioff
                 rep.require(ok, "iterator", "next:none-guard", w, "early None only for empty data, offset untouched",
